@@ -79,6 +79,8 @@ def cast(v, d):
             v -= 2 ** bits
         return v
     if k == "f":
+        if d.itemsize < 8:
+            return _narrow_float(v, d)
         if isinstance(v, SReal):
             return v
         if isinstance(v, (SInt, SBool)):
@@ -86,6 +88,50 @@ def cast(v, d):
             return SReal(t, n, i, S.ipart(v))
         return cfrac(v)
     raise HarnessError("cast to dtype %s" % d)
+
+
+NARROW_LEVELS = 3
+
+
+def round_int_to_float(ti, p, levels=NARROW_LEVELS):
+    """Float with a p-bit significand nearest to the integer term ti (round half to even), as an Int term.
+    Exact below 2**p; `levels` binades above are spelled out; beyond them the result is only constrained to
+    within half a unit in the last place (over-approximation: any violation is replayed before it is believed,
+    and counterexample models are steered into the exactly modelled range)."""
+    eng = E()
+    a = z3.If(ti < 0, -ti, ti)
+    far = z3.Int(S.fresh_name("narrow"))
+    eng.assume(z3.Implies(a >= 2 ** (p + levels), z3.And((far - a) * 2 ** p <= a, (a - far) * 2 ** p <= a)))
+    eng.prefer.append(a < 2 ** (p + levels))
+    r = far
+    for e in range(p + levels - 1, p - 1, -1):
+        q = 1 << (e - p + 1)
+        m = a % q
+        lo = a - m
+        up = z3.Or(2 * m > q, z3.And(2 * m == q, (lo / q) % 2 == 1))
+        r = z3.If(a < 2 ** (e + 1), z3.If(up, lo + q, lo), r)
+    r = z3.If(a < 2 ** p, a, r)
+    return z3.If(ti < 0, -r, r)
+
+
+def _narrow_float(v, d):
+    """Value stored into a float32/float16 array.  Integer-valued symbolic values are rounded exactly;
+    other symbolic reals are kept exact (rounding of non-integers is outside every claim)."""
+    p = {2: 11, 4: 24}[d.itemsize]
+    if isinstance(v, (bool, int, Fraction)) or (isinstance(v, float) and not (math.isnan(v) or math.isinf(v))):
+        with rnp.errstate(all="ignore"):
+            return cfrac(float(d.type(float(v))))
+    if isinstance(v, float):
+        return v
+    if isinstance(v, SReal) and v.i is True:
+        ti = z3.ToInt(v.t)
+    else:
+        ti = S.ipart(v)
+    if ti is None:
+        return v if isinstance(v, SReal) else cast(v, rnp.dtype(float))
+    t, n, i = S.rparts(v)
+    r = round_int_to_float(ti, p)
+    return SReal(z3.ToReal(r), n, i, r)
 
 
 def from_real_scalar(x):
